@@ -88,16 +88,11 @@ def classify(dt):
 
 
 # ---- translator ------------------------------------------------------------------------------------
-def translate(ctx):
-    try:
-        ex = a01.extract()
-        text = a01.render_lean(ex)
-    except a01.Unrecognised as e:
-        ctx.tie_broken("translator:sql-program", "source shape not recognised: %s" % e)
+def translate(ctx, base=None):
+    ex = a01.extract_any(ctx, base or scratch_base(ctx))
+    if ex is None:
         return
-    except Exception as e:  # ast.parse failure etc.
-        ctx.tie_broken("translator:sql-program", repr(e))
-        return
+    text = a01.render_lean(ex)
     old = open(GEN_FILE).read() if os.path.exists(GEN_FILE) else None
     if old != text:
         os.makedirs(os.path.dirname(GEN_FILE), exist_ok=True)
@@ -207,6 +202,7 @@ class ProxyCursor:
         self._pc, self._cur = pconn, cur
 
     def execute(self, sql, *args):
+        self._pc._m.last_sql = sql
         return self._pc._gate(a01.sql_kind(sql), lambda: self._cur.execute(sql, *args))
 
     def __getattr__(self, name):
@@ -224,6 +220,7 @@ class ProxyConnection:
         return ProxyCursor(self, self._conn.cursor())
 
     def execute(self, sql, *args):
+        self._m.last_sql = sql
         return self._gate(a01.sql_kind(sql), lambda: self._conn.execute(sql, *args))
 
     def commit(self):
@@ -384,49 +381,183 @@ def db_oracle(folder, texts, fresh_keys):
 
 
 # ---- (C) recorded traces ------------------------------------------------------------------------------
-def record_traces(ctx, texts, broken_text):
-    """Runs parse() under a recording proxy in several situations; returns [(label, [kinds])]."""
+class _PickleSpy:
+    """Stands in for the name `pickle` inside pymoca.parser while traces are recorded with `work` marks."""
+
+    def __init__(self, rec):
+        self._rec = rec
+
+    def dumps(self, *a, **kw):
+        self._rec.append(("work", False))
+        return pickle.dumps(*a, **kw)
+
+    def loads(self, *a, **kw):
+        self._rec.append(("work", False))
+        return pickle.loads(*a, **kw)
+
+    def __getattr__(self, name):
+        return getattr(pickle, name)
+
+
+# situations in which a statement raises for a reason other than locking (the file was damaged after the process
+# initialised it): parse() recovers through exception handlers; the statement program and the lock theorems are
+# about exception-free executions, so these traces are recorded but are not paths of the program
+EXCEPTIONAL = ("initialised-file-deleted", "initialised-insert-rejected")
+
+
+def record_scenarios(base, texts, broken_text, with_work=False):
+    """Runs parse() under a recording proxy of `sqlite3` over a matrix of situations (fresh / existing / wrong
+    layout / damaged; hit / miss / update / syntax error / bypass / damage after initialisation).
+    Returns ([(label, [(kind, guarded)], error-or-None)], isolation levels of the connect calls).
+    `guarded` marks the integrity check (the statement whose failure makes parse() remove the file);
+    with `with_work` the calls of _parse / pickle.dumps / pickle.loads are recorded as `work`."""
     out = []
     rec = []
 
     def hook(pconn, kind, fn):
-        rec.append(kind)
+        sql = (getattr(proxy, "last_sql", "") or "").upper()
+        rec.append((kind, kind == "read" and "INTEGRITY_CHECK" in sql))
         return fn()
 
     proxy = ProxySqlite(hook)
     with Env(proxy) as env:
-        def one(label, folder, txt, reload=True, **kw):
-            if reload:
-                env.reload()
-            del rec[:]
-            try:
-                env.parser.parse(txt, model_cache_folder=Path(folder), **kw)
-                out.append((label, list(rec), None))
-            except Exception as e:
-                out.append((label, list(rec), "%s: %s" % (type(e).__name__, e)))
+        saved = (env.parser._parse, env.parser.pickle)
+        if with_work:
+            def spy_parse(txt, _p=saved[0]):
+                rec.append(("work", False))
+                return _p(txt)
+            env.parser._parse = spy_parse
+            env.parser.pickle = _PickleSpy(rec)
+        try:
+            def one(label, folder, txt, reload=True, **kw):
+                if reload:
+                    env.reload()
+                del rec[:]
+                try:
+                    env.parser.parse(txt, model_cache_folder=Path(folder), **kw)
+                    out.append((label, list(rec), None))
+                except Exception as e:
+                    out.append((label, list(rec), "%s: %s" % (type(e).__name__, e)))
 
-        d = tempfile.mkdtemp(prefix="c02-trace-", dir=scratch_base(ctx))
-        one("fresh-miss", d, texts[0])
-        one("initialised-hit", d, texts[0], reload=False)
-        one("initialised-hit-update", d, texts[0], reload=False, always_update_last_hit=True)
-        one("initialised-miss", d, texts[1], reload=False)
-        one("reloaded-hit", d, texts[0])
-        one("reloaded-syntax-error", d, broken_text)
-        one("bypass", d, texts[0], bypass_cache=True)
-        d2 = tempfile.mkdtemp(prefix="c02-trace-", dir=scratch_base(ctx))
-        make_state(d2, "wronglayout", texts)
-        one("wronglayout-miss", d2, texts[0])
-        d3 = tempfile.mkdtemp(prefix="c02-trace-", dir=scratch_base(ctx))
-        with open(os.path.join(d3, DB), "w") as f:
-            f.write("This is not a valid SQLite database file\n" * 5)
-        one("garbage-file-miss", d3, texts[0])
-        conn = sqlite3.connect(os.path.join(d, DB))
-        conn.execute("UPDATE models SET data = ?", (b"not a pickle",))
-        conn.commit()
-        conn.close()
-        one("reloaded-unpicklable", d, texts[0])
-        isolation = [kw.get("isolation_level", "<default>") for kw in proxy.connect_kwargs]
+            def edit(folder, *stmts):
+                conn = sqlite3.connect(os.path.join(folder, DB))
+                for st in stmts:
+                    conn.execute(*st) if isinstance(st, tuple) else conn.execute(st)
+                conn.commit()
+                conn.close()
+
+            d = tempfile.mkdtemp(prefix="c02-trace-", dir=base)
+            one("fresh-miss", d, texts[0])
+            one("initialised-hit", d, texts[0], reload=False)
+            one("initialised-hit-update", d, texts[0], reload=False, always_update_last_hit=True)
+            one("initialised-miss", d, texts[1], reload=False)
+            one("reloaded-hit", d, texts[0])
+            one("reloaded-syntax-error", d, broken_text)
+            one("initialised-syntax-error", d, broken_text, reload=False)
+            one("bypass", d, texts[0], bypass_cache=True)
+            edit(d, "UPDATE models SET last_hit = last_hit - 200000000000")
+            one("initialised-old-hit", d, texts[0], reload=False)
+            one("reloaded-prune-all", d, texts[1], cache_expiration_days=0)
+            d2 = tempfile.mkdtemp(prefix="c02-trace-", dir=base)
+            make_state(d2, "wronglayout", texts)
+            one("wronglayout-miss", d2, texts[0])
+            d3 = tempfile.mkdtemp(prefix="c02-trace-", dir=base)
+            with open(os.path.join(d3, DB), "w") as f:
+                f.write("This is not a valid SQLite database file\n" * 5)
+            one("garbage-file-miss", d3, texts[0])
+            edit(d, ("UPDATE models SET data = ?", (b"not a pickle",)))
+            one("reloaded-unpicklable", d, texts[0])
+            edit(d, ("UPDATE models SET data = ?", (pickle.dumps(None),)))
+            one("initialised-none-entry", d, texts[0], reload=False)
+            # one table right, the other wrong / missing
+            d4 = tempfile.mkdtemp(prefix="c02-trace-", dir=base)
+            one("d4-fresh", d4, texts[0])
+            edit(d4, "DROP TABLE metadata")
+            one("reloaded-no-metadata", d4, texts[0])
+            edit(d4, "DROP TABLE models", "CREATE TABLE models (wrong_key TEXT)")
+            one("reloaded-alien-models", d4, texts[0])
+            # damage after initialisation (the handlers of 821b239 / 921daaa)
+            os.remove(os.path.join(d4, DB))
+            one("initialised-file-deleted", d4, texts[0], reload=False)
+            edit(d4, "DROP TABLE models",
+                 "CREATE TABLE models (txt_hash TEXT, pymoca_version TEXT, data BLOB, last_hit TIMESTAMP INTEGER, extra TEXT NOT NULL)")
+            one("initialised-insert-rejected", d4, texts[2], reload=False)
+            one("after-insert-rejected", d4, texts[2], reload=False)
+            isolation = [kw.get("isolation_level", "<default>") for kw in proxy.connect_kwargs]
+        finally:
+            env.parser._parse, env.parser.pickle = saved
     return out, isolation
+
+
+def record_traces(ctx, texts, broken_text):
+    """[(label, [kinds], error)] for tie C (SQL statements only)."""
+    out, isolation = record_scenarios(scratch_base(ctx), texts, broken_text)
+    return [(label, [k for k, _ in tr], err) for label, tr, err in out], isolation
+
+
+def extract_dynamic(base):
+    """Fallback of the translator: the statement program as the prefix tree of recorded traces, and the flags
+    probed behaviourally.  Same result shape as `a01.extract` plus "derived": "traces"."""
+    import random
+    from pymoca import parser
+    rng = random.Random(20260921)
+    texts = []
+    i = 0
+    while len(texts) < 3:
+        t = a01.gen_text(rng, i)
+        i += 1
+        try:
+            if parser._parse(t) is not None:
+                texts.append(t)
+        except Exception:
+            pass
+    with a01.Quiet():
+        traces, isolation = record_scenarios(base, texts, a01.break_text(rng, texts[0], "noend"), with_work=True)
+        # scenarios in which parse() raised end at an arbitrary statement: they are reported by tie C; the program
+        # is built from the complete ones
+        prog = a01.prog_of_traces([tr for label, tr, err in traces if err is None and label not in EXCEPTIONAL])
+        # flags, behaviourally
+        probes = {"pickle.UnpicklingError": b"not a pickle", "EOFError": b"", "AttributeError": b"cpymoca.ast\nNoSuchClass\n.",
+                  "ModuleNotFoundError": b"cno_such_mod_a01\nX\n.", "TypeError": None, "ValueError": b"\x80\x63."}
+        caught = []
+        with Env() as env:
+            for name, blob in probes.items():
+                d = tempfile.mkdtemp(prefix="c02-probe-", dir=base)
+                env.reload()
+                env.parser.parse(texts[0], model_cache_folder=Path(d))
+                conn = sqlite3.connect(os.path.join(d, DB))
+                conn.execute("UPDATE models SET data = ?", (blob,))
+                conn.commit()
+                conn.close()
+                try:
+                    env.parser.parse(texts[0], model_cache_folder=Path(d))
+                    caught.append(name)
+                except Exception:
+                    pass
+            if len(caught) == len(probes):
+                caught += ["IndexError", "KeyError"]      # (no blob known that makes pickle.loads raise these)
+
+            def survives(prepare, txt):
+                d = tempfile.mkdtemp(prefix="c02-probe-", dir=base)
+                env.reload()
+                env.parser.parse(texts[0], model_cache_folder=Path(d))
+                prepare(d)
+                try:
+                    return env.parser.parse(txt, model_cache_folder=Path(d)) is not None
+                except Exception:
+                    return False
+
+            def extracol(d):
+                conn = sqlite3.connect(os.path.join(d, DB))
+                conn.execute("DROP TABLE models")
+                conn.execute("CREATE TABLE models (txt_hash TEXT, pymoca_version TEXT, data BLOB, last_hit TIMESTAMP INTEGER, extra TEXT NOT NULL)")
+                conn.commit()
+                conn.close()
+            recover = survives(lambda d: os.remove(os.path.join(d, DB)), texts[0])
+            tolerant = survives(extracol, texts[1])
+    return {"prog": prog, "caught_unpickle": caught, "caught_integrity": ["<trace-derived>"],
+            "isolation_none": all(x is None for x in isolation), "sql": [], "recover": recover, "write_tolerant": tolerant,
+            "derived": "traces", "scenarios": len(traces)}
 
 
 # ---- (D) scheduled runs ---------------------------------------------------------------------------------
@@ -966,11 +1097,7 @@ def _run_ties(ctx, drv, quick, rng, pool, workers):
         run_case(ctx, c, drv, workers)
 
     # (C) program vs recorded traces, and the extracted tree itself through the driver
-    try:
-        ex = a01.extract()
-    except Exception as e:
-        ex = None
-        ctx.tie_broken("translator:sql-program", repr(e))
+    ex = a01.extract_any(ctx, scratch_base(ctx))
     traces, isolation = record_traces(ctx, pool["texts"], a01.break_text(rng, pool["texts"][0], "noend"))
     for label, tr, err in traces:
         case = {"kind": "trace", "situation": label, "trace": tr}
@@ -994,7 +1121,7 @@ def _run_ties(ctx, drv, quick, rng, pool, workers):
             ctx.tie_broken("obligation:noUpgrade sqlProgram", "the extracted statement tree has a path that writes inside a "
                            "transaction that has only read, nests BEGIN, or leaves a transaction open")
         for (label, tr, _), ok in zip(traces, ans["member"]):
-            if not ok:
+            if not ok and label not in EXCEPTIONAL:
                 ctx.disagreement("prog.trace", {"kind": "trace", "situation": label, "trace": tr},
                                  "a path of the extracted statement tree", "not a path")
 
